@@ -8,8 +8,12 @@
 # Observed: `select <var>` (the selected column's values), `select NR` (NR of the first record, number of records),
 # `select *` (records and output header). Expected values come from the model (entry 528: header/NR logic + the index the
 # variable map gives the probe variable).
+# Second tie (props/fngen.py, job `vars`): python_string_escape_column_name / query_probably_has_dictionary_variable of rbql_engine.py and
+# js_string_escape_column_name / query_probably_has_dictionary_variable of rbql.js are TRANSLATED into Gallina on every run
+# (harness/translate_fn.py); the generated obligations (= VarsIx.v, proved equal to ParserVars.v) are compiled beside the correspondence run.
 import keyword
 import lib
+from props import fngen
 
 THEOREM = ('C09_binding / C09_escape_roundtrip / C09_header_never_data / C09_with_override (Props/C09.v); '
            'model = ParserVars.get_variables_map + csv_records / csv_header')
@@ -458,6 +462,48 @@ def build_literals(ctx):
 
 
 def run(ctx):
+    gen = fngen.start(ctx, 'vars')      # translation of the escape / prefilter functions + generated obligations, beside the correspondence run
+    failure = None
+    try:
+        run_correspondence(ctx)
+    except lib.CheckFailure as e:
+        failure = e
+    fngen.finish(ctx, gen, search_more=(lambda langs: extended_search(ctx, langs)) if failure is None else None)
+    if failure is not None:
+        raise failure
+
+
+def extended_search(ctx, langs):
+    """a generated obligation broke and the tier's run found no failing input: the thorough tier's generators (capped) - the internal
+    probes (escape, prefilter, variable maps of rbql-py) and, for rbql-js, list sources through query_table"""
+    class T_:
+        tier = 'thorough'
+        rng = ctx.rng
+        seed = ctx.seed
+    if 'py' in langs:
+        ic = build_internal(T_)[:20000]
+        _vargs, _vm, iexp = internal_expect(ic)
+        igot = [canon_internal(g, e) for g, e in zip(lib.run_impl_py('c09', ic), iexp)]
+        ctx.compare(ic, iexp, igot, THEOREM + ' ; internal variable-map functions (extended search)',
+                    describe=lambda c, e, g: 'variable map / escape / init code differ for query %r, names %r, source %d: model %r, implementation %r' % (c['query'], c['names'], c['src'], e, g))
+        ctx.stat('extended_search_internal', len(ic))
+    if 'js' in langs:
+        saved = ctx.tier
+        try:
+            ctx.tier = 'thorough'
+            cases = [c for c in build_cases(ctx) if c['kind'] == 'table' and c.get('names') is not None and c['mod'] is None][:6000]
+        finally:
+            ctx.tier = saved
+        _args, _raw, exp = model_expect(cases)
+        keep = [i for i, e in enumerate(exp) if not any(x.get('error') or 'model' in x for x in e)]
+        js_cases = [cases[i] for i in keep]
+        js_got = [canon_got(c, g, exp[i]) for c, g, i in zip(js_cases, lib.run_impl_js('c09', js_cases, shards=8), keep)]
+        ctx.compare([dict(c, impl='js') for c in js_cases], [canon_exp(cases[i], exp[i]) for i in keep], js_got, THEOREM + ' (rbql-js leg, extended search)',
+                    describe=lambda c, e, g: 'rbql-js: ' + describe(c, e, g), shrink=None)
+        ctx.stat('extended_search_js', len(js_cases))
+
+
+def run_correspondence(ctx):
     ctx.rule = ('headers of 1-5 distinct names (identifiers and arbitrary strings over printable ASCII, quotes, backslash, brackets, '
                 'TAB, LF, non-ASCII), every column position, a.name / a["name"] / a[\'name\'] / bare name, sources list / direct / '
                 'CSV iterator / query_csv (+JOIN) / pandas / sqlite, caller flag x WITH modifier; non-trivial = distinct '
@@ -548,6 +594,8 @@ def replay(ctx, case):
     if case.get('part') == 'cov_jsjoin':
         import importlib
         return importlib.import_module('props.cov_jsjoin').replay(ctx, case, THEOREM)
+    if 'fngen_obligation' in case:
+        return fngen.replay(ctx, case)
     if case.get('part') == 'c16js':
         import importlib
         return importlib.import_module('props.c16js').replay(ctx, case, THEOREM)
